@@ -53,7 +53,10 @@ def run_ops(oplist, mons, footprint=None, use_model=True, stop_at_first=True):
             for sig, detail in monitors.MONITORS[m](rec):
                 vio.append({'kind': 'monitor', 'monitor': m, 'signature': sig, 'detail': detail, 'index': i,
                             'status': r.status})
-        if r.status >= 500:
+        if r.status == 599:
+            vio.append({'kind': 'monitor', 'monitor': 'terminates', 'signature': 'request-did-not-terminate:%s' % op['op'],
+                        'index': i, 'detail': str(r.json)[:200], 'status': r.status})
+        elif r.status >= 500:
             vio.append({'kind': 'monitor', 'monitor': 'no5xx', 'signature': '5xx:%s' % op['op'], 'index': i,
                         'detail': str(r.json)[:300], 'status': r.status})
         if use_model and _MODEL is not None:
@@ -101,6 +104,10 @@ def case(args):
     stats = {'ops': 0, 'by_op_status': {}, 'by_mv': {}}
     out = {'seed': seed, 'violations': [], 'stats': stats}
     try:
+        from harness import app as app_mod
+        if app_mod.HANGS[0] >= 2:
+            # requests of this tree do not terminate (already reported twice by this worker): no more histories
+            return out
         reset_both()
         before = _APP.dump()
         hist = []
@@ -120,6 +127,9 @@ def case(args):
             for m in mons:
                 for sig, detail in monitors.MONITORS[m](rec):
                     vio.append({'kind': 'monitor', 'monitor': m, 'signature': sig, 'detail': detail, 'index': i, 'status': r.status})
+            if r.status == 599:
+                vio.append({'kind': 'monitor', 'monitor': 'terminates', 'signature': 'request-did-not-terminate:%s' % op['op'],
+                            'index': i, 'detail': str(r.json)[:200], 'status': r.status})
             if r.status >= 500 and 'no5xx' in profile.get('extra', ()):
                 vio.append({'kind': 'monitor', 'monitor': 'no5xx', 'signature': '5xx:%s' % op['op'], 'index': i,
                             'detail': str(r.json)[:300], 'status': r.status})
@@ -155,7 +165,7 @@ def case(args):
                 # after a violation the two sides may have diverged: end this history
                 break
             before = after
-    except Exception:
+    except BaseException:      # incl. an escaped RequestHang: a dead pool worker would hang the check
         out['error'] = traceback.format_exc()
     return out
 
